@@ -74,8 +74,15 @@ func runC09Default(r *Run) {
 	calls := 0
 	windows, midDropWindows := 0, 0
 	durs := []time.Duration{thr, thr + 1, thr * 2, ms, 3 * ms, 50 * time.Microsecond, 20 * ms, minW / 2, minW, maxW + 1, time.Nanosecond}
+	burst := 0
 	for i := 0; i < n && !r.Failed(); i++ {
 		act := t.Pick([]int{4, 4, 5}, "act") // 0 sleep, 1 acquire, 2 complete
+		if burst > 0 {
+			// right after a window closed: a quick series of successes so that a ready window exists
+			// early in the next period (the algorithm must not be updated again before the period ends)
+			burst--
+			act = 1 + burst%2
+		}
 		if len(out) == 0 && act == 2 {
 			act = 1
 		}
@@ -191,6 +198,9 @@ func runC09Default(r *Run) {
 				}
 				m.next = now + w
 				m.reset()
+				if t.Chance(40, "burst-after-close") {
+					burst = 2*ws + 4
+				}
 			} else if len(rec.got) != calls {
 				key := "default/extra"
 				if m.min == math.MaxInt64 && m.cnt > 0 {
